@@ -500,7 +500,12 @@ func checkAndExtractFieldType(paths []string, typ reflect.Type) (extracted refle
 			continue
 		}
 
-		for extracted.Kind() == reflect.Ptr {
+		if extracted.Kind() == reflect.Ptr {
+			// one pointer level is what takeOne and assignOne follow
+			if extracted.Elem().Kind() == reflect.Ptr {
+				return nil, false, fmt.Errorf("type[%v] is a nested pointer, field[%s] cannot be reached through it", extracted, field)
+			}
+
 			extracted = extracted.Elem()
 		}
 
